@@ -196,3 +196,4 @@ func VfC14Hello() {
 		vf.Reach("not-both-set-up")
 	}
 }
+
